@@ -121,6 +121,7 @@ def evalLine (line : String) : String :=
     | _, _, _ => bad
   | ["serde_provider", ops, _root, _rv] => MiscDriver.serdeProvider ops
   | "det" :: _ => "not-modelled"
+  | "soak" :: _ => "not-modelled"
   | ["report", toks, _reg] => ReportDriver.reportLine toks
   | ["collapse", toks, _reg, _root, _rv] => ReportDriver.collapseLine toks
   | ["inv2", vs, dbg, root, rv, _reg, _strat, _fault, answers] =>
@@ -164,6 +165,7 @@ def evalLine (line : String) : String :=
     | none => bad
     | some rv =>
       if vs == "bits" then SolveDriver.solveLine SolveDriver.bitsIO (dbg == "dbg") root rv answers
+      else if vs == "bits2" then SolveDriver.solveLine SolveDriver.bits2IO (dbg == "dbg") root rv answers
       else SolveDriver.solveLine SolveDriver.rangeIO (dbg == "dbg") root rv answers
   | _ => bad
 
